@@ -5,7 +5,7 @@
    of loop turns.  Time unit: 2^-10 s. *)
 From Coq Require Import List Arith ZArith Bool Lia.
 Import ListNotations.
-Require Import FV.Gen.C13 FV.C13.Model FV.C13.Lemmas FV.C13.Timing.
+Require Import FV.Gen.C13 FV.C13.Model FV.C13.Lemmas FV.C13.Timing FV.C13.Slow.
 Local Open Scope Z_scope.
 
 (* obligations on the facts regenerated from /repo (Gen/C13.v) *)
@@ -14,7 +14,7 @@ Theorem C13_source_facts :
   poll_default_handler = true /\ poll_common_rest = false /\ thread_collects_only_polled = true /\
   callpoll_contains_exceptions = true /\ callpoll_reraise_guarded = true /\ mainloop_never_reraises = true /\
   main_due_rule = true /\ wait_rule = true /\ slow_fresh_twice = 1 /\ refill_rule = true /\ trigger_rule = true /\
-  initialreads_contained = true /\ 0 < max_wait_ticks /\ 0 < startup_wait_ticks.
+  initialreads_contained = true /\ startup_single_pass = true /\ 0 < max_wait_ticks /\ 0 < startup_wait_ticks.
 Proof. repeat split; reflexivity. Qed.
 
 (* parameters marked as not polled (no read function, @nopoll, not the first key of a common handler), and
@@ -99,6 +99,104 @@ Theorem C13_next_wakeup_uses_interval : forall ms t x, In x ms -> enable (md x) 
   wait_time ms t <= last_main x + interval x - t.
 Proof. intros ms t x. apply wait_time_uses_interval. Qed.
 
+(* ---------------------------------------------------------------- slow polls
+   Periods without run-time requests (acts = []), every driver call lasting at most dmax, 0 <= eps, every polled module
+   with a positive slow interval (wf; the datatype of slowinterval is FloatRange(0.1, 120)).
+     Tn = eps + sweep    the longest a loop turn can last (all main polls + one slow poll + overhead)
+     Pn                  the number of polled parameters of all polled modules of the thread (no iterator is longer)
+     Lw s                no last_slow lies in the future
+     Sinv s              for every polled module: now + (entries left in the iterator + 1) * Tn
+                           <= last_slow + slowinterval + Pn * Tn + dmax   (nothing left: now <= last_slow + slowinterval),
+                         i.e. the refill that books the next round of a module happens no later than
+                         Pn * Tn + dmax after the round is due
+     Q1 s                every polled parameter waits in the iterator or was refreshed (time stamp) / read by the poller
+                         not earlier than last_slow - slowinterval / 2 of its module
+     Q2 s                an entry waiting in the iterator was refreshed / read not earlier than BB / 2 before the
+                         projected end of the running round,  BB / 2 = 3/2 slowinterval + 2 * Pn * Tn + 2 * dmax *)
+
+(* a refill books exactly the polled parameters of the modules whose round is due *)
+Theorem C13_slow_round_complete : forall s m i, alive s = true ->
+  (In (m, i) (refill_list s) <-> slow_due (now s) (get_mod s m) = true /\ In i (polled_params (dsc s m))).
+Proof. intros s m i. apply in_refill_list. Qed.
+
+(* the round is worked off: every entry (m, i) of the iterator is dealt with within as many turns as the iterator is
+   long (each lasting at most Tn, the thread does not sleep meanwhile): it is read by the poller, or it is skipped,
+   which happens only when its time stamp is younger than half a slow interval; outcomes of the reads are arbitrary *)
+Theorem C13_slow_round : forall W dmax, (forall k, 0 <= fst (script W k) <= dmax) -> 0 <= eps W ->
+  forall s l, quiet s -> wf s -> topoll s = Some l ->
+  forall m i, In (m, i) l -> en s m = true ->
+  exists k, (1 <= k <= length l)%nat /\
+    let s' := turns W k s in
+    now s' <= now s + Z.of_nat k * Tn W dmax s /\
+    ((exists t, now s <= t /\ In (LRead t m i) (log s')) \/
+     2 * now s <= 2 * ts (get_ps (get_mod s' m) i) + si (dsc s m)).
+Proof. intros W dmax Hd He s l Q Wf Tp m i Hin Hen. apply (round_progress W dmax Hd He (length l) s l); auto. Qed.
+
+(* one loop turn: Lw and Q1 are kept; Sinv holds after every turn that starts with an empty iterator, whatever the
+   state was, and is kept; Q2 is kept.  The static data (module descriptors) do not change. *)
+Theorem C13_slow_invariants : forall W dmax, (forall k, 0 <= fst (script W k) <= dmax) -> 0 <= eps W ->
+  forall s, quiet s -> wf s -> Lw s -> Q1 s ->
+  let s' := turn W s in
+  sameS s s' /\ Lw s' /\ Q1 s' /\ ((topoll s = None \/ Sinv W dmax s) -> Sinv W dmax s') /\
+  (Sinv W dmax s -> Q2 W dmax s -> Q2 W dmax s').
+Proof. intros W dmax Hd He s. apply (turn_slow W dmax Hd He). Qed.
+
+(* the state in which the main loop is entered - for every module list, every outcome (failures included) and duration
+   of the start-up calls - satisfies the part of the invariants that needs no history *)
+Theorem C13_slow_reachable : forall W dmax, (forall k, 0 <= fst (script W k) <= dmax) ->
+  forall t0 ds, 0 <= t0 ->
+  (forall d, In d (map fst ds) -> enable d = true -> 0 < si d) -> existsb enable (map fst ds) = true ->
+  let s0 := startup W (init_state t0 ds []) in
+  quiet s0 /\ topoll s0 = None /\ wf s0 /\ Lw s0 /\ Q1 s0.
+Proof. intros W dmax Hd t0 ds. apply (slow_from_start W dmax Hd). Qed.
+
+(* bounded staleness of every polled parameter, from any state that satisfies the invariants: after any number of
+   turns the invariants hold again and every polled parameter (m, i) has a time stamp, or a read by the poller, that is
+   not older than BB / 2 = 3/2 slowinterval + 2 * Pn * Tn + 2 * dmax; failing reads count (the poller did its work),
+   a read that repeats its previous error leaves the time stamp but is in the log *)
+Theorem C13_slow_bound_from : forall W dmax, (forall k, 0 <= fst (script W k) <= dmax) -> 0 <= eps W ->
+  forall s, quiet s -> slow_inv W dmax s ->
+  forall n, let s' := turns W n s in
+  quiet s' /\ slow_inv W dmax s' /\
+  forall m i, en s' m = true -> In i (polled_params (dsc s' m)) ->
+    let x := 2 * now s' - (3 * si (dsc s' m) + 4 * (Pn s' * Tn W dmax s') + 4 * dmax) in
+    x <= 2 * ts (get_ps (get_mod s' m) i) \/ exists t, x <= 2 * t /\ In (LRead t m i) (log s').
+Proof.
+  intros W dmax Hd He s Q I n. destruct (turns_slow_inv W dmax Hd He n s Q I) as (Q' & _ & I').
+  split; [exact Q'|]. split; [exact I'|]. intros m i Hen Hin.
+  exact (stale_bound W dmax Hd He _ I' m i (conj Hen Hin)).
+Qed.
+
+(* the invariants hold whenever nothing waits in the iterator *)
+Theorem C13_slow_inv_when_idle : forall W dmax s,
+  wf s -> Lw s -> Sinv W dmax s -> Q1 s -> cur s = [] -> slow_inv W dmax s.
+Proof. intros W dmax s. apply slow_inv_idle. Qed.
+
+(* bounded staleness for whole histories: for every module list, start time, outcome and duration script (calls lasting
+   at most dmax) and every number of turns, without run-time requests: once the iterator has been found empty at the
+   end of a turn (n1 >= 1: the first round is worked off), at the end of every later turn every polled parameter has a
+   time stamp or a poller read not older than 3/2 slowinterval + 2 * Pn * Tn + 2 * dmax *)
+Theorem C13_slow_bound : forall W dmax, (forall k, 0 <= fst (script W k) <= dmax) -> 0 <= eps W ->
+  forall t0 ds, 0 <= t0 ->
+  (forall d, In d (map fst ds) -> enable d = true -> 0 < si d) -> existsb enable (map fst ds) = true ->
+  forall n1, (1 <= n1)%nat -> cur (run W n1 (init_state t0 ds [])) = [] ->
+  forall k, let s := run W (n1 + k) (init_state t0 ds []) in
+  forall m i, en s m = true -> In i (polled_params (dsc s m)) ->
+    let x := 2 * now s - (3 * si (dsc s m) + 4 * (Pn s * Tn W dmax s) + 4 * dmax) in
+    x <= 2 * ts (get_ps (get_mod s m) i) \/ exists t, x <= 2 * t /\ In (LRead t m i) (log s).
+Proof.
+  intros W dmax Hd He t0 ds Ht Hsi Hen n1 Hn1 Hc k s m i Hm Hi.
+  destruct (slow_bound_run W dmax Hd He t0 ds Ht Hsi Hen n1 Hn1 Hc k) as (_ & _ & B).
+  exact (B m i (conj Hm Hi)).
+Qed.
+
+(* main polls are not starved by slow polls: in every state (run-time requests or not) a loop turn contains at most
+   one read by the poller, and it comes after the main polls of the turn (C13_main_bound: every module overdue at the
+   top of the turn is polled in it) *)
+Theorem C13_one_slow_poll_per_turn : forall W s,
+  (nreads (log s) <= nreads (log (turn W s)) <= S (nreads (log s)))%nat.
+Proof. intros W s. apply one_slow_poll_per_turn. Qed.
+
 (* non-vacuity: two modules, reads that fail, the log of a short run *)
 Definition demo_ds : list (mdesc * Z) :=
   [({| enable := true; si := 2048; winit := false; iread := false; mainreads := [0%nat];
@@ -132,6 +230,30 @@ Example C13_demo_initialreads :
                  LTurn 1024067; LMain 1024067 0; LMain 1024068 1].
 Proof. vm_compute. auto. Qed.
 
+(* non-vacuity of C13_slow_bound: two polled modules with three polled parameters, one of them also read by doPoll;
+   the iterator is empty after the 4th turn; the hypotheses hold, so the bound holds for every later turn *)
+Definition demo3_ds : list (mdesc * Z) :=
+  [({| enable := true; si := 2048; winit := false; iread := false; mainreads := [0%nat];
+       params := [{| pk := KRead; pnopoll := false |}; {| pk := KRead; pnopoll := false |}] |}, 1024);
+   ({| enable := true; si := 1024; winit := false; iread := false; mainreads := [];
+       params := [{| pk := KHandler; pnopoll := false |}] |}, 512)].
+Definition demo3_W : world := {| script := fun n => (if Nat.even n then 8 else 16, if Nat.eqb n 5 then OErr 1 0 else OOk);
+                                 eps := 1; reconn := false |}.
+Lemma demo3_dur : forall k, 0 <= fst (script demo3_W k) <= 16.
+Proof. intros k. simpl. destruct (Nat.even k); lia. Qed.
+Example C13_demo_slow :
+  cur (run demo3_W 4 (init_state 1024000 demo3_ds [])) = [] /\
+  forall k, let s := run demo3_W (4 + k) (init_state 1024000 demo3_ds []) in
+  forall m i, en s m = true -> In i (polled_params (dsc s m)) ->
+    let x := 2 * now s - (3 * si (dsc s m) + 4 * (Pn s * Tn demo3_W 16 s) + 4 * 16) in
+    x <= 2 * ts (get_ps (get_mod s m) i) \/ exists t, x <= 2 * t /\ In (LRead t m i) (log s).
+Proof.
+  assert (C : cur (run demo3_W 4 (init_state 1024000 demo3_ds [])) = []) by (vm_compute; reflexivity).
+  split; [exact C|].
+  apply (C13_slow_bound demo3_W 16 demo3_dur); try (vm_compute; congruence); try lia; try exact C.
+  intros d [<-|[<-|[]]] _; reflexivity.
+Qed.
+
 Print Assumptions C13_source_facts.
 Print Assumptions C13_nopoll_never_read.
 Print Assumptions C13_survives.
@@ -142,3 +264,11 @@ Print Assumptions C13_quiet_closed.
 Print Assumptions C13_no_wait_during_round.
 Print Assumptions C13_interval_change.
 Print Assumptions C13_next_wakeup_uses_interval.
+Print Assumptions C13_slow_round_complete.
+Print Assumptions C13_slow_round.
+Print Assumptions C13_slow_invariants.
+Print Assumptions C13_slow_reachable.
+Print Assumptions C13_slow_bound_from.
+Print Assumptions C13_slow_inv_when_idle.
+Print Assumptions C13_slow_bound.
+Print Assumptions C13_one_slow_poll_per_turn.
